@@ -662,8 +662,13 @@ lzma_index_append(lzma_index *i, const lzma_allocator *allocator,
 	const uint32_t index_list_size_add = lzma_vli_size(unpadded_size)
 			+ lzma_vli_size(uncompressed_size);
 
-	// Check that uncompressed size will not overflow.
-	if (uncompressed_base + uncompressed_size > LZMA_VLI_MAX)
+	// Check that uncompressed size will not overflow. uncompressed_base
+	// is relative to the beginning of the last Stream, so the total of
+	// all Streams has to be checked too (lzma_index_cat() checks it
+	// when Streams are combined).
+	if (uncompressed_base + uncompressed_size > LZMA_VLI_MAX
+			|| i->uncompressed_size + uncompressed_size
+				> LZMA_VLI_MAX)
 		return LZMA_DATA_ERROR;
 
 	// Check that the new unpadded sum will not overflow. This is
